@@ -951,19 +951,19 @@ class Reaction(Object):
         """
         # no references to model when copying
         model = self._model
+        # The metabolites and genes may belong to a model even if the reaction
+        # does not (any more), so remember each owner.
+        owners = [(i, i._model) for i in self._metabolites]
+        owners += [(i, i._model) for i in self._genes]
         self._model = None
-        for i in self._metabolites:
-            i._model = None
-        for i in self._genes:
+        for i, _ in owners:
             i._model = None
         # now we can copy
         new_reaction = deepcopy(self)
         # restore the references
         self._model = model
-        for i in self._metabolites:
-            i._model = model
-        for i in self._genes:
-            i._model = model
+        for i, owner in owners:
+            i._model = owner
         return new_reaction
 
     def __add__(self, other: "Reaction") -> "Reaction":
